@@ -105,6 +105,9 @@ def run(ctx):
     ok = bool(after) and bool(retest) and all(any(t.id in g.reach([a], include_src=False) for t in retest) for a in after)
     ctx.ob('C33-EDITS.modifications-in-after-hooks-start-another-round', fl, after[0].ast if after else fl.node, ok,
            '' if ok else 'after the after_* hooks the flush does not re-test cache.modified')
+    # ---------------------------------------------------------------- EDITS: every attribute a hook changes gets its write bit (shared with C28-BITS)
+    from . import C28
+    C28.bits_rule(ctx, P='C33-EDITS-BITS')
 
 
 def innermost_loops_with(fn_node, meth):
